@@ -10,7 +10,7 @@ import numpy as np
 from hypothesis import strategies as st
 
 from . import repo, strategies as S, trcases as TR
-from .core import HarnessError
+from .core import HarnessError, pub_attrs
 
 # ------------------------------------------------------------------------------------------------ canonical forms
 
@@ -40,7 +40,13 @@ def canon(x, depth=0):
         if isinstance(x, float):
             extra = [float(x).hex()]
         return ["obj", type(x).__name__] + extra + [[k, canon(v, depth + 1)] for k, v in sorted(vars(x).items())]
-    return ["repr", repr(x)]
+    slots = pub_attrs(x)
+    if slots:
+        return ["obj", type(x).__name__] + [[k, canon(v, depth + 1)] for k, v in sorted(slots.items())]
+    r = repr(x)
+    if " at 0x" in r:
+        r = "<%s object>" % type(x).__name__          # (a default repr carries an address: not a value)
+    return ["repr", r]
 
 
 # ------------------------------------------------------------------------------------------------ constants: snapshot + barrier
@@ -86,7 +92,7 @@ def install_barrier():
             if BARRIER.armed:
                 who = BARRIER.ids.get(id(self))
                 if who is not None:
-                    old = self.__dict__.get(name, _MISSING)
+                    old = getattr(self, name, _MISSING)
                     same = old is not _MISSING and canon(old) == canon(value)
                     if same:
                         BARRIER.benign += 1
@@ -131,7 +137,7 @@ def restore_constants():
                     if k == "tf_sd":
                         continue
                     object.__setattr__(cat[n], k, copy.deepcopy(v))
-                for k in list(vars(cat[n]).keys()):
+                for k in list(pub_attrs(cat[n]).keys()):
                     if k not in attrs:
                         object.__delattr__(cat[n], k)
         for n, (obj, attrs) in _PRISTINE_SD.items():
@@ -149,10 +155,10 @@ def take_pristine():
     if _PRISTINE:
         return
     for n, v in _catalogue().items():
-        _PRISTINE[n] = {k: (val if k == "tf_sd" else copy.deepcopy(val)) for k, val in vars(v).items()}
+        _PRISTINE[n] = {k: (val if k == "tf_sd" else copy.deepcopy(val)) for k, val in pub_attrs(v).items()}
         sd = getattr(v, "tf_sd", None)
         if sd is not None:
-            _PRISTINE_SD[id(sd)] = (sd, dict(vars(sd)))
+            _PRISTINE_SD[id(sd)] = (sd, pub_attrs(sd))
 
 
 # ------------------------------------------------------------------------------------------------ the call catalogue
